@@ -359,6 +359,20 @@ def check_import(ctx, fr):
     ok = len(srt) == 1 and loop.body.index(srt[0]) < loop.body.index(next(s for s in loop.body if isinstance(s, ast.Assign) and "make_wires_adjacent" in ast.unparse(s.value)))
     ctx.ob("R17.5", ZX + ".Diagram.from_pyzx:inputs-sorted", ok, found=[ast.unparse(s) for s in srt], required="the inputs are sorted by their position in the row before they are gathered (so every move is to the left)", mod=ZX,
            node=loop, sig="inputs-sorted")
+    callst = next(s for s in loop.body if isinstance(s, ast.Assign) and "make_wires_adjacent" in ast.unparse(s.value))
+    shape.match_stmts(ctx, "R17.5", ZX + ".Diagram.from_pyzx:gather-call", [callst], ["scan, diagram, offset = make_wires_adjacent(scan, diagram, inputs)"], mod=ZX, node=callst, sig="gather-call", exact=True,
+                      required="the row and the diagram go in and come back in the order the helper takes and returns them")
+    mwa_ = inner(ctx, fr, "make_wires_adjacent")
+    ctx.ob("R17.5", ZX + ".Diagram.from_pyzx.make_wires_adjacent:signature", [a.arg for a in mwa_.args.args] == ["scan", "diagram", "inputs"], found=[a.arg for a in mwa_.args.args], required="(scan, diagram, inputs)",
+           mod=ZX, node=mwa_, sig="gather-signature", trivial=True)
+    for r_ in [r_ for r_ in ast.walk(mwa_) if isinstance(r_, ast.Return)]:
+        shape.match(ctx, "R17.5", ZX + ".Diagram.from_pyzx.make_wires_adjacent:returns", r_.value, ["(scan, diagram, offset)", "(scan, diagram, len(scan))"], {}, mod=ZX, node=r_, sig="gather-returns",
+                    required="(row, diagram, offset of the gathered legs)")
+    mv_ = inner(ctx, fr, "move")
+    ctx.ob("R17.4", ZX + ".Diagram.from_pyzx.move:signature", [a.arg for a in mv_.args.args] == ["scan", "source", "target"], found=[a.arg for a in mv_.args.args], required="(scan, source, target)", mod=ZX, node=mv_,
+           sig="move-signature", trivial=True)
+    for r_ in [r_ for r_ in ast.walk(mv_) if isinstance(r_, ast.Return)]:
+        shape.match(ctx, "R17.4", ZX + ".Diagram.from_pyzx.move:returns", r_.value, "(scan, swaps)", {}, mod=ZX, node=r_, sig="move-returns", required="(row, swaps), the order in which the callers unpack them")
     shape.match(ctx, "R17.6", ZX + ".Diagram.from_pyzx:hadamards", body["hadamards"].value, "Id(0).tensor(*[H if graph.edge_type((i, node)) == EdgeType.HADAMARD else Id(1) for i in scan[offset:offset + len(inputs)]])",
                 {nodev: "node"}, mod=ZX, node=body["hadamards"], sig="vertex-hadamards", required="a Hadamard on each gathered leg whose edge to the vertex is a Hadamard edge")
     shape.match(ctx, "R17.6", ZX + ".Diagram.from_pyzx:box", body["box"].value, "node2box(node, len(inputs), len(outputs))", {nodev: "node"}, mod=ZX, node=body["box"], sig="vertex-box")
